@@ -20,6 +20,8 @@ def jobs(tier, seed):
     for j in c02.jobs(tier, seed):
         j = dict(j); j['entry'] = 'h_c14'; j['harness'] = 'h_c01.cpp'; j['cfg'] = {'source': 1}; j['variant'] = j['name']; j['name'] = 'loaded'
         out.append(j)
+    out.append({'entry': 'h_c14', 'harness': 'h_c01.cpp', 'cfg': {'source': 1}, 'name': 'loaded', 'variant': 'two-free-rates', 'shape': dict(P=1, C=0, sub=0, F=1), 'lay': {},
+                'opts': {'extras': [], 'events': 0, 'symbolic_meta': False, 'analog': 'empty'}, 'two_rates': True})
     return out
 
 def field_of(off, data_start=None):
@@ -56,7 +58,17 @@ def obligations(sec, job, st):
 def run_job(engine, job):
     files = None; assume = None
     if job['cfg']['source'] == 1:
-        S, c, lay, cells = c02.build_file(job); files = {'in.c3d': gen.to_engine_cells(cells)}; assume = S.cons
+        if job.get('two_rates'):
+            S = gen.Syms(); c = gen.make_content(S, **job['shape'], **job['opts'])
+            c.rate = S.f32('hrate'); pr = S.f32('prate')
+            for g in c.groups:
+                for p in g.params:
+                    if bytes(g.name) == b'POINT' and bytes(p.name) == b'RATE': p.values = [pr]
+            from oracle import c3dref as _r
+            cells = _r.encode_with_data_start(c, _r.Layout())
+        else:
+            S, c, lay, cells = c02.build_file(job)
+        files = {'in.c3d': gen.to_engine_cells(cells)}; assume = S.cons
     return std_run(engine, job, obligations, 'c14.end', ID, job['name'], files=files, assume=assume)
 
 def native_confirm(nat, v):
